@@ -440,6 +440,23 @@ def own_attrs(a, gain, power, ext, eq=None):
     return pw, gm, nf
 
 
+def pin_dependent(a):
+    """OpenROADM NF masks depend on the input power; edfa_nf ranks them at the code's own convention (0 dBm, 88
+    channels, 50 GHz), which the statement does not fix -> such models are ranked under correspondence only"""
+    tds = [a.type_def] if a.type_def != 'dual_stage' else [a.preamp_type_def, a.booster_type_def]
+    return any(t in ('openroadm', 'openroadm_preamp') for t in tds)
+
+
+def monitor_rejected(res, eq, offered, raman_allowed, gain, power, ext, where=''):
+    """a refused selection: the statement demands a choice whenever a permitted model can deliver gain and power"""
+    usable = [n for n in offered if not eq['Edfa'][n].raman or raman_allowed]
+    attrs = {n: own_attrs(eq['Edfa'][n], gain, power, ext, eq) for n in usable}
+    cap = [n for n, v in attrs.items() if v[0] > 1e-9 and v[1] > 1e-9]
+    if cap:
+        res.fail(f'capable: {where}selection rejected although {cap} can deliver gain {gain} and power {power}')
+    res.stats['sel_rejected_monitored'] += 1
+
+
 def monitor_choice(res, eq, permitted, raman_allowed, gain, power, ext, chosen, reduction, where=''):
     """the C10 statement for one selection; permitted = names the selection may draw from"""
     if chosen not in permitted:
@@ -457,9 +474,13 @@ def monitor_choice(res, eq, permitted, raman_allowed, gain, power, ext, chosen, 
             res.fail(f'capable: {where}{capable} can deliver gain {gain} / power {power} but the chosen {chosen} cannot '
                      f'(power margin {pw}, gain margin {gm})')
         else:
-            best = min(attrs[n][2] for n in capable)
-            if nf > best + 1e-7:
-                res.fail(f'quietest: {where}chosen {chosen} has NF {nf}, capable model with NF {best} exists')
+            fixed = [n for n in capable if not pin_dependent(eq['Edfa'][n])]
+            if fixed and not pin_dependent(a):
+                best = min(attrs[n][2] for n in fixed)
+                if nf > best + 1e-7:
+                    res.fail(f'quietest: {where}chosen {chosen} has NF {nf}, capable model with NF {best} exists')
+            else:
+                res.stats['sel_quietest_by_correspondence_only_openroadm'] += 1
         if reduction is not None and abs(reduction) > 1e-9 and pw >= -1e-9:
             res.fail(f'capable: {where}power reduced by {reduction} although the chosen model can deliver the power')
     res.stats['sel_some_capable' if capable else 'sel_none_capable'] += 1
@@ -507,11 +528,7 @@ def run_select(case, drv):
         res.stats.update({'sel_reduced': int(red < 0), f'sel_acceptable_{min(len(acc), 4)}': 1,
                           'sel_chosen_raman': int(bool(eq['Edfa'][variety].raman))})
     else:
-        # rejected: the statement demands a choice only if some permitted non-Raman model exists or a capable one
-        usable = [n for n, a in edfa_eqpt.items() if not a.raman or ok]
-        attrs = {n: own_attrs(eq['Edfa'][n], gain, power, ext, eq) for n in usable}
-        if any(v[0] > 1e-9 and v[1] > 1e-9 for v in attrs.values()):
-            res.fail('capable: selection rejected although a permitted model can deliver the gain and power')
+        monitor_rejected(res, eq, list(edfa_eqpt), ok, gain, power, ext)
         res.stats['sel_rejected'] += 1
     res.nontrivial = len(edfa_eqpt) >= 2
     res.stats.update({'select_cases': 1, f'sel_libsize_{min(len(edfa_eqpt), 6)}': 1, 'sel_restricted': int(bool(restr))})
@@ -695,6 +712,8 @@ def run_topo(case, drv):
                           uid=s['uid'])
             mr = drv.ask('c10.raman', prev_is_fiber=r['loss'] is not None, loss_coef=fl(r['loss'] or []), limit=f2b(limit))
             res.cmp_exact('set_one_amplifier.raman_allowed', s['raman_allowed'], mr, uid=s['uid'])
+        if s['out'] is None:
+            monitor_rejected(res, eq, s['names'], s['raman_allowed'], s['gain'], s['power'], s['ext'], where=f'{s["uid"]}: ')
         if s['out'] is None or 'error' in m:
             res.cmp_exact('select_edfa.rejects', s['out'] is None, 'error' in m, uid=s['uid'])
             continue
@@ -703,7 +722,7 @@ def run_topo(case, drv):
             try:
                 impl_nf[x['variety']] = float(gnet.edfa_nf(s['gain'], eq['Edfa'][x['variety']]))
             except Exception:  # noqa: BLE001
-                pass
+                res.stats['edfa_nf_probe_failed'] += 1
         tied, exact = nf_tie(m['acceptable'], m['variety'], impl_nf)
         if exact:
             res.cmp_exact('select_edfa.variety', s['out'][0], m['variety'], uid=s['uid'])
@@ -712,11 +731,15 @@ def run_topo(case, drv):
             res.ill += 1
             res.cmp_exact('select_edfa.variety_among_nf_ties', s['out'][0] in tied, True, chosen=s['out'][0], tied=tied,
                           uid=s['uid'])
-    # ---------------- monitor on the designed network
-    if err is None:
+    # ---------------- monitor on the designed network (after an aborted design: on every amplifier designed before)
+    if True:
         by = nets.by_uid(net)
         for uid, node in by.items():
             if type(node).__name__ != 'Edfa':
+                continue
+            if err is not None and not any(x['uid'] == uid and x['out'] for x in sel_calls) and not (
+                    explicit.get(uid) and explicit[uid]['type_variety']):
+                res.stats['topo_amplifier_not_reached_before_abort'] += 1
                 continue
             spec = explicit.get(uid)
             if spec is not None and spec['type_variety']:
@@ -762,8 +785,10 @@ def run_topo(case, drv):
                 res.stats['topo_loss_table_' + ('all_below' if below == len(table) else 'none_below' if below == 0
                                                 else 'straddling')] += 1
             s = next((x for x in sel_calls if x['uid'] == uid), None)
-            if s is None:
-                res.fail(f'permitted set: {uid} received {chosen} without a selection being observed')
+            if s is None or not s['out']:
+                res.stats['topo_choice_without_observed_selection'] += 1     # spy coupling: no targets to judge with
+                if chosen not in permitted:
+                    res.fail(f'permitted set: {uid} ({src}): chosen model {chosen} is not in the permitted set {sorted(permitted)}')
                 continue
             monitor_choice(res, eq, permitted, raman_ok, s['gain'], s['power'], s['ext'], chosen, s['out'][1] if s['out'] else None,
                            where=f'{uid} ({src}): ')
@@ -934,7 +959,7 @@ def run_mtopo(case, drv):
                 try:
                     impl_nf[x['variety']] = float(gnet.edfa_nf(sels[i]['gain'], eq['Edfa'][x['variety']]))
                 except Exception:  # noqa: BLE001
-                    pass
+                    res.stats['edfa_nf_probe_failed'] += 1
             tied, ex = nf_tie(bd['acceptable'], bd['pick'], impl_nf)
             if not ex:
                 exact = False
@@ -971,6 +996,7 @@ def run_mtopo(case, drv):
             calls = [c_ for c_ in cmp_calls if c_[0] == uid]
             names = list(node.amplifiers)
             if len(calls) != len(names) or not all(n in dmap for n in names):
+                res.stats['mtopo_typed_node_not_completely_processed'] += 1
                 continue       # not (completely) processed before the design stopped
             if err is not None and (err != 'ConfigurationError' or uid != last_uid):
                 if not node.params.type_variety:
@@ -992,7 +1018,7 @@ def run_mtopo(case, drv):
                         try:
                             impl_nf[x['variety']] = float(gnet.edfa_nf(sels[k]['gain'], eq['Edfa'][x['variety']]))
                         except Exception:  # noqa: BLE001
-                            pass
+                            res.stats['edfa_nf_probe_failed'] += 1
                     tied, ex = nf_tie(bd['acceptable'], bd['pick'], impl_nf)
                     if not ex:
                         exact = False
@@ -1043,17 +1069,26 @@ def run_mtopo(case, drv):
             continue
         pm = permitted_multi(s_['uid'], node)
         members = {t for m_ in pm for t in eq['Edfa'][m_].multi_band}
-        if s_['out'] is not None and s_['out'][0] not in members:
+        prev_node = next(net.predecessors(node))
+        limit_ = eq['Span']['default'].max_fiber_lineic_loss_for_raman
+        raman_ok = type(prev_node).__name__ == 'Fiber' and all(
+            float(x) < limit_ * 1e-3 for x in np.atleast_1d(np.asarray(prev_node.params.loss_coef, dtype=float)))
+        if s_['out'] is None:
+            monitor_rejected(res, eq, s_['names'], raman_ok, s_['gain'], s_['power'], s_['ext'], where=f'{s_["uid"]}: ')
+        elif s_['out'][0] not in members:
             res.fail(f'permitted set: {s_["uid"]}: per-band choice {s_["out"][0]} belongs to no permitted multiband model '
                      f'{sorted(pm)}')
-        elif s_['out'] is not None:
-            monitor_choice(res, eq, set(s_['names']), s_['raman_allowed'], s_['gain'], s_['power'], s_['ext'],
+        else:
+            monitor_choice(res, eq, set(s_['names']), raman_ok, s_['gain'], s_['power'], s_['ext'],
                            s_['out'][0], s_['out'][1], where=f'{s_["uid"]}: ')
     MIX = 'multiband-per-band-choices-form-unpermitted-type'
-    if err is None:
+    if True:
         for uid, it in specs.items():
             node = by[uid]
             tv = node.params.type_variety
+            if err is not None and (not tv or len([c_ for c_ in cmp_calls if c_[0] == uid]) < len(node.amplifiers)):
+                res.stats['mtopo_node_not_reached_before_abort'] += 1
+                continue
             if it['type_variety']:
                 picks = [a.params.type_variety for a in node.amplifiers.values()]
                 mem = list(eq['Edfa'][it['type_variety']].multi_band)
@@ -1076,8 +1111,10 @@ def run_mtopo(case, drv):
             if tv not in pm:
                 picks = [a.params.type_variety for a in node.amplifiers.values()]
                 members = {t for m_ in pm for t in eq['Edfa'][m_].multi_band}
-                # known open finding: every per-band model is a member of a permitted entry, but of different ones
-                cls = MIX if set(picks) <= members else 'unlisted'
+                # known open finding, full precondition: every per-band model is a member of a permitted entry, but no
+                # single permitted entry lists them all
+                cls = MIX if (set(picks) <= members and not any(set(picks) <= set(eq['Edfa'][m_].multi_band) for m_ in pm)) \
+                    else 'unlisted'
                 res.fail(f'permitted set: {uid} received multiband type {tv} (per-band models {picks}), permitted are '
                          f'{sorted(pm)}', cls=cls)
                 continue
@@ -1089,16 +1126,19 @@ def run_mtopo(case, drv):
                 b = a.params.bands[0]
                 if not any(b['f_min'] <= db[0] and b['f_max'] >= db[1] for db in dbands):
                     res.fail(f'band cover: {uid}: model {a.params.type_variety} covers none of the design bands {dbands}')
-    if err == 'ConfigurationError' and 'do not belong to the same amp type' in errmsg and sel_calls:
-        # the same open finding, other outcome: the independent per-band picks are grouped by no entry at all
+    if err == 'ConfigurationError' and sel_calls:
+        # the same open finding, other outcome: every band of the node got its model, but the independent per-band picks
+        # are grouped by no multiband entry of the library at all, and the design stops
         uid = sel_calls[-1]['uid']
         node = by.get(uid)
-        if node is not None and uid in specs and not specs[uid]['type_variety']:
+        if node is not None and uid in specs and not specs[uid]['type_variety'] and not node.params.type_variety:
             pm = permitted_multi(uid, node)
             members = {t for m_ in pm for t in eq['Edfa'][m_].multi_band}
             picks = [x['out'][0] for x in sel_calls if x['uid'] == uid and x['out']]
-            res.fail(f'permitted set: {uid}: design aborted, the per-band models {picks} chosen independently are grouped '
-                     f'by no multiband entry (permitted {sorted(pm)})', cls=MIX if set(picks) <= members else 'unlisted')
+            grouped = any(a.type_def == 'multi_band' and set(picks) <= set(a.multi_band) for a in eq['Edfa'].values())
+            if len(picks) == len(node.amplifiers) and picks and not grouped:
+                res.fail(f'permitted set: {uid}: design aborted, the per-band models {picks} chosen independently are grouped '
+                         f'by no multiband entry (permitted {sorted(pm)})', cls=MIX if set(picks) <= members else 'unlisted')
     res.nontrivial = auto > 0 or bool(pre_calls)
     res.stats.update({'mtopo_cases': 1, 'mtopo_auto_nodes': auto, f'mtopo_outcome_{err or "designed"}': 1,
                       'mtopo_preselect_calls': len(pre_calls), 'mtopo_select_calls': len(sel_calls)})
